@@ -199,6 +199,11 @@ def run_once_serial(cfg, *, max_workers=None, prelude=False, around_run=None, wa
         import contextlib
         import io
         quiet = contextlib.redirect_stderr(io.StringIO()) if displays else contextlib.nullcontext()
+        if cfg.history:
+            from .e2 import lab_history
+            lab_history(lab, cfg, backend.events)
+            backend.runner = None
+            U.WORLD.reset(epoch=1, faults=[spec.labels[i] for i in cfg.faults], fault_exc=cfg.fault_exc)
         try:
             if cfg.precached:
                 # the caller looks at the cache before the run (whatever a Lab remembers from that must not outlive the entry)
@@ -293,7 +298,8 @@ def conformance_trace_raw(cfg_real, events_real, outcome_fp_real) -> Optional[st
             continue
         collapsed.append(b)
     batches = collapsed
-    cfg = replace(obs_real.cfg, batch=max([len(b) for b in batches] + [1]), stutter=True)
+    # (the trace is that of the measured call; whatever the Lab object went through before is not replayed)
+    cfg = replace(obs_real.cfg, batch=max([len(b) for b in batches] + [1]), stutter=True, history='')
     ch = ForcedChooser(batches)
     obs = run_once(cfg, ch)
     if ch.rejected:
